@@ -10,6 +10,7 @@ DESC = {
   ('over-reject', 'receiver-field', 'qdefault'): "`(x ? d).bx`: a value made non-null with a default is rejected as receiver of a field access",
   ('over-reject', 'reassign-nullable', 'plain'): "a plain T value (tuple, list literal, constructor call) is rejected as new value of a variable declared T?",
   ('over-reject', 'return-nullable', None): "a conforming value is rejected as return value of a function declared to return T? (collection literals in any form; a T variable as last expression)",
+  ('over-reject', 'field', 'ifx-plain'): "`fb.f := (if c then a else b)` is rejected ('Cannot infer type within access property') when it stands in a LATER branch (second match arm, else branch, handle arm): a conditional expression inside a later branch loses the definitions made in that branch",
   ('under-reject', 'reassign', 'nfield'): "a field declared T? is accepted as new value of a variable declared T (`u := box.nf`)",
   ('under-reject', 'receiver-field', None): "field access through a nullable receiver (`None.bx`, `nv.bx`, `nret().bx`, `box.nf.bx`) is accepted: AttributeError on None at run time",
   ('under-reject', 'receiver', 'nfield'): "method call through a field declared T? (`box.nf.get()`) is accepted",
